@@ -383,8 +383,12 @@ def backward(rng, n, out):
             out["failures"].append({"unit": "casadi_to_sympy", "class": "raises", "input": {"expr": str(e)}, "expected": "a sympy expression or NotImplementedError", "observed": "%s: %s" % (type(ex).__name__, str(ex)[:120]), "what": "conversion raised an unexpected exception"})
             continue
         fn = ca.Function("f", [x, y], [e])
-        for _ in range(3):
-            px, py = float(rng.uniform(-2, 2)), float(rng.uniform(-2, 2))
+        # random points plus ties: equal operands and the constants the generator uses (non-strict comparisons, min/max,
+        # sign, floor/ceil and equality only differ from their neighbours exactly there)
+        consts = [2.0, -0.5, 1.25, 3.0]
+        tie = float(rng.choice(consts))
+        pts = [(float(rng.uniform(-2, 2)), float(rng.uniform(-2, 2))) for _ in range(3)] + [(tie, tie), (float(rng.choice(consts)), float(rng.choice(consts))), (float(rng.uniform(-2, 2)),) * 2]     # (0, 0) is left out: atan2(0, 0) is outside the domain
+        for px, py in pts:
             ref = np.array(fn(px, py)).astype(float)
             sub = {v: (px if str(k) == "x" else py) for k, v in syms.items()}
             try:
